@@ -60,11 +60,59 @@ CHECKS.update({
    ref='6/C16'),
 })
 
+CHECKS.update({
+ 'C04': dict(level='other', engine='K-bits + S-ring + S-exp',
+   technique='Kani/CBMC bounded model checking of the real decoders with all input bytes symbolic against an independent decision list; ring-domain symbolic execution of is_on_curve / get_point_from_x; exponent-domain check of the subgroup multiplier; z3',
+   text='All four into_affine_unchecked and four into_affine decoders are model-checked for every byte string of length 48/96/192: classification (compression flag, infinity/sort flags, coordinate range, curve, subgroup - in that order) and parsed integers equal an independent decision list, never a panic, re-encoding reproduces accepted bytes. From MIR: is_on_curve <=> y^2 = x^3 + B with B = 4 / 4(1+u), get_point_from_x takes the root of x^3 + B selected by the flag, the subgroup test multiplies by exactly r.',
+   note='Kani stubs: Fq::mul_assign/square no-ops and into_repr identity (C08 covers the real Montgomery code), sqrt and in_subgroup arbitrary oracles, fmt::format empty. Which coordinate label a range error carries is not checked (the property does not state it). sqrt finds a root whenever one exists: C18 scope note.',
+   ref='6/C04'),
+ 'C05': dict(level='model_checking', engine='K-bits',
+   technique='Kani/CBMC bounded model checking of the real encoders/decoders with all coordinate limbs and bytes symbolic against an independent byte-level encoder',
+   text='from_affine / into_compressed / into_uncompressed for G1 and G2: bytes equal an independent big-endian ZCash-format encoder (c1 before c0, flag bits, sort flag iff y > -y in the lexicographic order), lengths 48/96/96/192, decode(encode(P)) = P, and for every byte string the decoders accept, re-encoding reproduces the bytes (injective, non-malleable).',
+   note='Same stubs as C04; y != 0 assumed (no 2-torsion). Ord for Fq2 and negate are the real code.',
+   ref='6/C05'),
+ 'C06': dict(level='other', engine='S-euf + native KAT',
+   technique='EUF symbolic execution of the HashToCurve blanket impl from MIR decided by z3; RFC 9380 known-answer vectors replayed natively',
+   text='hash_to_curve(msg,dst) = map2_to_curve(u0,u1) with (u0,u1) = hash_to_field(msg,dst,2) and encode_to_curve = map_to_curve(hash_to_field(msg,dst,1)[0]), exactly one call each, nothing else read, for G1 and G2. Four RFC 9380 appendix J vectors (G1 RO x2, G1 NU, G2 RO) are reproduced by the real SHA-256 code in dev and release builds.',
+   note='The RFC-level claim is the conjunction C13 and C14 and C15 and C16 and C17; the vectors pin constants and sign conventions end to end.',
+   ref='6/C06'),
+ 'C07': dict(level='other', engine='S-euf/exp',
+   technique='EUF / exponent-domain symbolic execution from MIR with z3; exact-integer ground facts',
+   text='in_subgroup = is_on_curve && [r]P == O (curve test first), is_on_curve <=> curve equation, subgroup test multiplies by exactly r, scale_by_cofactor multiplies by exactly h1 / h2 with h*r = #E(Fq) resp. the sextic-twist order recomputed from the trace, random() returns only cofactor-scaled non-identity points, generator literals on curve with order r.',
+   note='Partial: closure of the whole safe API is an induction over C01/C02/C04/C10/C14/C17/C19 written in DESIGN.md, not a solver query; group structure Z/h x Z/r with gcd(h,r)=1 is used.',
+   ref='6/C07'),
+ 'C08': dict(level='other', engine='K-bits + S-lia',
+   technique='Kani/CBMC on the derive-generated limb code against u128 carry-chain references; linear-integer SMT obligations for Montgomery multiplication extracted from MIR (opaque limb products); exact-integer ground facts',
+   text='FqRepr/FrRepr add_nocarry, sub_noborrow, mul2, div2, shl, shr (symbolic amount), num_bits, parity, zero, cmp, From<u64>, big/little-endian IO; Fq/Fr add, sub, negate, double, zero test, equality, from_repr acceptance (< modulus), char() for all limb values. Montgomery mul_assign, square and into_repr: (value before reduce)*2^(64n) = product + K*q and < 2q whenever operands are reduced, for all limb values, with the 64-bit lemma r + (r*INV)*q0 = 0 on bit-vectors. Every hard-coded Montgomery literal (R, R2, INV, B, -1, generators, 2^256, 2^192, GENERATOR, ROOT_OF_UNITY, S) equals its documented value.',
+   note='Partial: inverse, pow, sqrt, legendre (loops over 381-bit data generated by ff_derive) are outside the claim. Non-linear glue stated: sum p_ij 2^(64(i+j)) = A*B and A,B<q => A*B <= (q-1)^2.',
+   ref='6/C08'),
+ 'C11': dict(level='other', engine='S-monoid',
+   technique='symbolic execution of the Miller-loop MIR over the free abelian group on formal line-evaluation generators; identity-operand patterns enumerated; exact vector comparison (no unknowns remain after execution)',
+   text='Joint Miller loop = product of single-pair loops over the non-identity pairs for all 4^n identity patterns (n <= 2 quick, 3 thorough); each pair consumes exactly its own 68 coefficients in order (67 makes unwrap fail); single-loop schedule equals an independent transcription of the optimal-ate loop for |x|/2; G2Prepared::from_affine produces 68 coefficients in doubling/addition order; pairing / pairing_product / pairing_multi_product build the lists in order and exponentiate once.',
+   note='Partial: the value e(g1,g2)^(sum a_i b_i) needs bilinearity (C03, not applicable). Fq12 commutativity and sparse products from C09, multiplicativity of the final exponentiation from C12. No SMT query is needed here because execution over formal generators leaves no symbolic unknowns; stated as such.',
+   ref='6/C11'),
+ 'C13': dict(level='model_checking', engine='K-mock + K-bits',
+   technique='Kani/CBMC bounded model checking of the real generic expand_message / hash_to_field code instantiated with position-sensitive mock hashes, and of from_okm / from_ro with a recording multiplication stub',
+   text='expand_message_xmd and _xof equal an independent RFC 9380 5.3 transcription for all message and tag bytes at a grid of lengths (incl. empty message, empty tag, truncation mid-block, zero length), 256 blocks abort; hash_to_field makes one expander call with count*L and splits consecutive blocks; Fq::from_okm / Fr::from_okm = hi*2^256+lo / hi*2^192+lo for all 64/48-byte blocks, Fq2::from_ro takes c0 from the first 64 bytes.',
+   note='SHA-2 / SHAKE internals and real XOF readers not modelled; lengths from a stated grid; the multiplier literals are C08 ground facts.',
+   ref='6/C13'),
+ 'C18': dict(level='other', engine='K-bits + S-euf',
+   technique='Kani/CBMC on sgn0 / ordering / negate_if for all canonical values; ring-domain conformance of Fq2::sqrt to Alg. 9 with pow and Frobenius uninterpreted; z3',
+   text='Fq::sgn0 = parity, Fq2::sgn0 = parity of the first non-zero coefficient, negate_if, xor table, Ord for Fq = integer order, Ord for Fq2 lexicographic with c1 most significant, exactly one of y,-y larger and parities differ. Fq2::sqrt: exponent literals (q-3)/4 and (q-1)/2, a0 = alpha^q alpha, None iff a0 = -1, alpha = -1 special case multiplies by u, else by (1+alpha)^((q-1)/2), zero to zero; legendre = legendre_Fq(norm), norm = c0^2+c1^2.',
+   note='Partial: correctness (not conformance) of Alg. 9 and of the derive-generated Fq / Fr sqrt and legendre for all inputs is outside the claim (pow loops over 255/381-bit fields); their parameters are C08 ground facts.',
+   ref='6/C18'),
+ 'C19': dict(level='model_checking', engine='K-bits',
+   technique='Kani/CBMC bounded model checking of the real SerDes code with decoder/encoder oracles, stream contents and flag symbolic, lengths on a boundary grid',
+   text='deserialize for G1Affine, G2Affine, G1, Fr, Fq12: Err on truncated input, on a flag contradicting the data, on non-reduced field values and whenever the decoder oracle rejects; consumes exactly 48/96/192/32/576 bytes on success; the decoder sees exactly the stream bytes; serialize writes exactly the encoder bytes; Fq12 coefficient order c0.c0.c0 ... c1.c2.c1; Fr round trip.',
+   note='Concrete stream lengths from the stated grid; decoders/encoders themselves are C04/C05; G2 projective shares the code shape of G1 projective.',
+   ref='6/C19'),
+})
+
 NOT_APPLICABLE = {
  'C03': 'bilinearity/non-degeneracy is a theorem about Miller functions of degree ~2^63 in the inputs; no bounded SMT/SAT query expresses it and the pairing code cannot be re-instantiated over a toy curve (DESIGN 6/C03)',
  'C20': 'quantifies over thread schedules; Kani/CBMC do not model std::thread and the mechanism is a fact about declarations, not a solver query (DESIGN 6/C20)',
 }
-PENDING = ['C04','C05','C06','C07','C08','C11','C13','C18','C19']
+PENDING = []
 
 def main():
     checks = []
@@ -96,7 +144,7 @@ def main():
             'add_only': True,
         },
         'engines': [
-            {'name': 'kani', 'path': '/verif/kani', 'serves_properties': ['C01'], 'kind_free_text': 'Kani 0.68 / CBMC 6.11 harness crate with a path dependency on a scratch copy of /repo (feature verif), unwinding assertions on, cover! vacuity witnesses'},
+            {'name': 'kani', 'path': '/verif/kani', 'serves_properties': ['C01', 'C04', 'C05', 'C08', 'C13', 'C18', 'C19'], 'kind_free_text': 'Kani 0.68 / CBMC 6.11 harness crate with a path dependency on a scratch copy of /repo (feature verif), unwinding assertions on, cover! vacuity witnesses'},
             {'name': 'mirsym', 'path': '/verif/mirsym', 'serves_properties': sorted(CHECKS), 'kind_free_text': 'symbolic executor for rustc MIR (regenerated from /repo on every run) producing SMT obligations for z3; ring / exponent / bit-vector / EUF domains'},
         ],
         'checks': checks,
